@@ -3,8 +3,9 @@ from __future__ import annotations
 
 import random
 
+from .. import models, pdugen, wire
 from ..oracles import C01Monitor, trace_summary
-from ..world import InternalError, RandomPlan, Runner, World
+from ..world import InternalError, Plan, RandomPlan, Runner, World
 
 PROP = "C01"
 LEVEL = "exploration"
@@ -63,7 +64,36 @@ def gen_cases(tier, seed):
             # the same or new content each time
             case["repeat"] = [rng.choice(["same", "same", "new", "shorter"]) for _ in range(rng.choice([1, 2, 3]))]
         cases.append(case)
+    # crafted corruption: four bytes of one segment are replaced (in every copy that crosses the link) such that the file checksum differs
+    # from the true one in chosen bytes only - a comparison which looks at part of the checksum would accept the file
+    for cks in ("crc32", "crc32c"):
+        for mode, closure in (("ack", False), ("unack", False), ("unack", True)):
+            for diff in PARTIAL_DIFFS:
+                for size, off in ((12, 4), (4, 0), (21, 16)):
+                    cases.append({"partial": {"diff": diff, "off": off}, "seed": 1, "p": {}, "rejects": [], "reject_exc": "PermissionError", "reject_create": False,
+                                  "cancel": None, "cfg": {"mode": mode, "closure": closure, "cks": cks, "seg": 4, "maxpkt": 128, "size": size,
+                                                          "content": (len(cases) + seed) % 4, "check_limit": 1, "ack_limit": 2, "nak_limit": 2}})
     return cases
+
+
+PARTIAL_DIFFS = ["00000001", "000000ff", "0000ffff", "00ffffff", "01000000", "ff000000", "ffff0000", "ffffff00", "00ffff00", "ff0000ff", "0000a500", "005a0000"]
+
+
+class CraftPlan(Plan):
+    """Every copy of the File Data PDU which starts at ``off`` carries the crafted four bytes."""
+
+    def __init__(self, off, window):
+        super().__init__()
+        self.off, self.window = off, window
+
+    def on_emit(self, idx, item):
+        d = item["d"]
+        if item["side"] == "S" and d.get("kind") == "FD" and d.get("offset") == self.off and d.get("dlen") == 4:
+            h = d["h"]
+            conf = pdugen.conf(h["src"], h["dst"], h["seq"], idw=h["idw"], seqw=h["seqw"], mode="unack" if h["unack"] else "ack", crc=h["crc"])
+            self.applied.append((idx, "flip", wire.short(d), "S"))
+            return [("now", pdugen.raw("FD", conf, {"offset": self.off, "data": self.window}))]
+        return [("now", item["raw"])]
 
 
 def run_case(case):
@@ -85,6 +115,12 @@ def run_case(case):
 
         w.dst_fs.fault = fault
         plan = RandomPlan(case["seed"], case["p"])
+        if case.get("partial"):
+            pc = case["partial"]
+            window = models.crafted_window(cfg["cks"], w.data, pc["off"], bytes.fromhex(pc["diff"]))
+            if window is None or window == w.data[pc["off"] : pc["off"] + 4]:
+                return {"viol": [], "sig": None, "obs": {"partial_collision_not_constructible": 1}, "sample": None}
+            plan = CraftPlan(pc["off"], window)
         actions = {}
         if case["cancel"]:
             actions[case["cancel"][1]] = [("cancel", case["cancel"][0])]
@@ -132,9 +168,14 @@ def run_case(case):
             "undeliverable_pdu_crc": r.unparsable, "cancel_sprinkled": int(bool(case["cancel"])),
             "internal_errors_not_judged_here": int(internal is not None), "repeated_transfers": len(case.get("repeat") or []),
         }
+        if case.get("partial"):
+            obs["crafted_partial_checksum_collisions_delivered"] = int(nflip > 0)
+            fins = [e["fin"] for e in w.log.of("ind_finished", "D")]
+            obs["crafted_partial_collisions_reported_unsuccessful"] = int(bool(fins) and not (fins[0][0] == "NO_ERROR" and fins[0][1] == "DATA_COMPLETE"))
+            interesting = nflip > 0 and bool(fins)
         for k, n in mon.by_reporter.items():
             obs["judged_" + k] = n
-        sig = [sorted((k, str(v)) for k, v in cfg.items()), applied, case["rejects"]] if interesting else None
+        sig = [sorted((k, str(v)) for k, v in cfg.items()), applied, case["rejects"], case.get("partial")] if interesting else None
         sample = None
         if interesting and (nflip or nrej[0]):
             sample = {"outcome": outcome, "faults": applied[:20], "rejected_writes": nrej[0], "trace": trace_summary(w, r, 50)}
@@ -142,5 +183,5 @@ def run_case(case):
                 "keys": {"step_pairs": [f"{a}|{b}" for a, b in r.steps_seen]}}
 
 
-REQUIRED = {"success_reports_after_fault": 50, "bit_flips": 50, "writes_rejected": 20, "success_after_flip_or_rejection": 5,
+REQUIRED = {"crafted_partial_checksum_collisions_delivered": 100, "crafted_partial_collisions_reported_unsuccessful": 100, "success_reports_after_fault": 50, "bit_flips": 50, "writes_rejected": 20, "success_after_flip_or_rejection": 5,
             "judged_receiver-indication": 20, "judged_finished-pdu": 20, "judged_sender-indication": 20}
